@@ -463,9 +463,11 @@ def _run_history(seed, case, scratch, template_home, opts):
     history = []
     # step 0: initial build
     steps = [{"edits": [], "cmd": ["build"], "kinds": ["initial"], "expect_ok": True}]
+    H_at = [copy.deepcopy(H)]        # generator state right after step i was generated (model == disk after step i's edits)
     for _ in range(nsteps - 1):
         st = H.next_step() if not (H.P.has_defect() or H.P.dangling()) or rng.chance(1, 3) else H.repair_step()
         steps.append(st)
+        H_at.append(copy.deepcopy(H))
     crash_steps = [i for i, st in enumerate(steps) if i >= 1 and st["cmd"][0] in ("build", "test") and st["expect_ok"]]
     # prefer steps that delete outputs / change options: they write the most
     crash_steps.sort(key=lambda i: (-sum(1 for k in steps[i]["kinds"] if k in ("rm_output", "toml", "rm_filelist", "change", "add")), i))
@@ -482,7 +484,7 @@ def _run_history(seed, case, scratch, template_home, opts):
         history.append({"edits": st["edits"], "cmd": argv})
         sample["history"].append({"kinds": st["kinds"], "cmd": " ".join(argv)})
         if si in crash_steps and crash_budget > 0:
-            crash_budget -= crash_faults(C, frng, H, files, files0, history, st, argv, pre_edit_state, min(crash_budget, opts["crash_per_step"]),
+            crash_budget -= crash_faults(C, frng, H_at[si], files, files0, history, st, argv, pre_edit_state, min(crash_budget, opts["crash_per_step"]),
                                          sample, opts)
             # crash_faults leaves inc restored to the pre-step snapshot
         code, out, err = twin.veryl(argv, cwd=C.inc, home=C.home)
@@ -653,6 +655,28 @@ def crash_faults(C, rng, H, files, files0, history, st, argv, pre_edit_state, bu
     return used
 
 
+def fault_signature(m, fault, scenario):
+    """Stable signature = failure kind + output class + fault scenario class.
+      crash, the differing file is the one whose write was killed/torn  -> <kind>:<cls>:crash:killed_output_accepted
+      crash, sources reverted (with mtimes) before the recovery build    -> <kind>:<cls>:crash:then_revert
+      other crash scenarios                                              -> <kind>:<cls>:crash@<phase>[:torn]:then_<variant>
+      damage                                                             -> <kind>:<cls>:damage:<file role>:<damage kind>
+      panic                                                              -> panic:<scenario>"""
+    if m["kind"] == "panic":
+        if fault["type"] == "damage":
+            return f"panic:damage:{fault['role']}:{fault['kind']}"
+        return f"panic:{scenario}"
+    cls = m["cls"]
+    if fault["type"] == "crash":
+        rel = m.get("rel") or ""
+        if rel and rel == fault.get("path"):
+            return f"{m['kind']}:{cls}:crash:killed_output_accepted"
+        if fault.get("variant") == "revert":
+            return f"{m['kind']}:{cls}:crash:then_revert"
+        return f"{m['kind']}:{cls}:{scenario}"
+    return f"{m['kind']}:{cls}:damage:{fault['role']}:{fault['kind']}"
+
+
 def verdict(C, r, c, mm, ctrl_keys, fault, scenario, files0, history, variant, extra_edits, recovery):
     if c.code != 0:
         C.bump("faults_skipped_clean_build_fails")
@@ -681,8 +705,7 @@ def verdict(C, r, c, mm, ctrl_keys, fault, scenario, files0, history, variant, e
         return
     by = {}
     for m in fresh:
-        cls = m["cls"] if m["kind"] != "panic" else "panic"
-        by.setdefault(f"{m['kind']}:{cls}:{scenario}", []).append(m)
+        by.setdefault(fault_signature(m, fault, scenario), []).append(m)
     for sig, ms in by.items():
         what = (f"after {fault['type']} fault ({scenario}; {json.dumps({k: v for k, v in fault.items() if k not in ('type',)})[:300]}) the recovery "
                 f"`veryl {' '.join(recovery)}` exit={r.code} restored={r.restored}: {ms[0]['kind']} -- {ms[0]['detail'][:300]}")
@@ -846,13 +869,13 @@ def main():
             run.violation(json.load(open(args.replay))["signature"], f"replay: {bad[0]['kind']} -- {bad[0]['detail'][:300]}", rp)
         run.finish([("recovery_compared", 1)])
 
-    nhist = args.budget("histories", 9, 60)
+    nhist = args.budget("histories", 6, 30)
     opts = {
-        "steps": args.budget("steps", 6, 8),
-        "crash": args.budget("crash", 5, 150),
+        "steps": args.budget("steps", 5, 8),
+        "crash": args.budget("crash", 5, 40),
         "crash_steps": args.budget("crash_steps", 1, 2),
-        "crash_per_step": args.budget("crash_per_step", 5, 80),
-        "damage": args.budget("damage", 5, 7),
+        "crash_per_step": args.budget("crash_per_step", 5, 24),
+        "damage": args.budget("damage", 4, 7),
         "sabotage": bool(int(args.extra.get("sabotage", 0))),
     }
     jobs = int(args.extra.get("jobs", min(12, os.cpu_count() or 4)))
@@ -891,11 +914,11 @@ def main():
     if custom:
         floors = [("recovery_compared", 1)]
     elif args.thorough():
-        floors = [("crash_points_killed", 400), ("damage_cases", 130), ("recovery_compared", 500), ("recovery_succeeded", 300),
+        floors = [("crash_points_killed", 300), ("damage_cases", 60), ("recovery_compared", 350), ("recovery_succeeded", 250),
                   ("recovery_outputs_compared", 3000), ("crash_points_killed_classes", 6), ("damaged_file_classes", 4)]
     else:
-        floors = [("crash_points_killed", 25), ("damage_cases", 20), ("recovery_compared", 45), ("recovery_succeeded", 25),
-                  ("recovery_outputs_compared", 250), ("crash_points_killed_classes", 4), ("damaged_file_classes", 3)]
+        floors = [("crash_points_killed", 9), ("damage_cases", 7), ("recovery_compared", 15), ("recovery_succeeded", 12),
+                  ("recovery_outputs_compared", 250), ("crash_points_killed_classes", 2), ("damaged_file_classes", 2)]
     run.finish(floors)
 
 
